@@ -17,7 +17,7 @@ LEVEL = "exploration"
 RULE = (
     "one case per (expression token sequence, spacing); systematic: all ordered pairs and triples of the 7 binary operators over "
     "3 operand tuples with every single-level parenthesisation, all unary/binary adjacencies, literal bases/cases at boundary "
-    "magnitudes; random trees; each run through eval_expression_str, the operand context (lda.w #E, lda.w E) and, when all its "
+    "magnitudes; random trees; each run through eval_expression_str, the operand contexts (lda.w #E, lda.w E, unsuffixed dec E / rol E) and, when all its "
     "operators are lexable there, the directive contexts (.dl, :=, =, macro argument, .if, .for bound when the value is small); distinct by hash of the rendered text; "
     "non-trivial = the reference defines a value and at least one operator is present"
 )
@@ -28,7 +28,7 @@ ASSUMPTIONS = [
 ]
 
 BINOPS = ["*", "+", "-", "<<", ">>", "&", "|"]
-ENV = {"va": 3, "vb": 0x1234, "vc_1": 0xFF, "vd": 0x10000, "ve": 0, "vn": -5}
+ENV = {"va": 3, "vb": 0x1234, "vc_1": 0xFF, "vd": 0x10000, "ve": 0, "vn": -5, "a": 0x10, "A": 0x1235, "x": 2, "S": 0x21}
 PRELUDE = "".join(f"{k} := {v}\n" if v >= 0 else f"{k} := 0 - {-v}\n" for k, v in ENV.items())
 
 _tap: EvalTap | None = None
@@ -229,6 +229,8 @@ def contexts_for(tokens, value: int | None = None) -> list[str]:
     ctx = ["api", "imm"]
     if not wholly_parenthesised(tokens):
         ctx.append("direct")
+        if value is not None and 0 <= value < 0x10000:
+            ctx.append("rmw")       # unsuffixed read-modify-write operand: width follows the value
     if lexable_in_directive(tokens):
         ctx += ["dl", "assign", "symbol", "macro", "if", "loop_body", "macro_body_twice"]
         if value is not None and -2 <= value <= 6:
@@ -244,6 +246,8 @@ def program_for(ctx: str, text: str) -> str:
         return head + f"lda.w #{text}\n"
     if ctx == "direct":
         return head + f"lda.w {text}\n"
+    if ctx == "rmw":
+        return head + f"dec {text}\nrol {text}\n"
     if ctx == "dl":
         return head + f".dl {text}\n"
     if ctx == "assign":
@@ -271,6 +275,8 @@ def expected_bytes(ctx: str, v: int) -> bytes:
         return b"\xa9" + le(v, 2)
     if ctx == "direct":
         return b"\xad" + le(v, 2)
+    if ctx == "rmw":
+        return (b"\xc6" + le(v, 1) + b"\x26" + le(v, 1)) if v < 0x100 else (b"\xce" + le(v, 2) + b"\x2e" + le(v, 2))
     if ctx == "if":
         return b"\x01" if v != 0 else b"\x00"
     if ctx == "shadow":
